@@ -22,6 +22,12 @@
 (* Mode "mix":  a state machine appending well-typed straight-line         *)
 (*   instructions (AddMix) that consume parameters, constants and earlier  *)
 (*   results; explored exhaustively to MaxSteps or with -simulate.         *)
+(* Mode "hist": construct -> print -> edit -> print histories (see the     *)
+(*   section "hist" below): the function is printed, rewritten through the *)
+(*   public API (instruction replaced in place, values named / un-named,   *)
+(*   instructions swapped, removed, inserted, terminator replaced, block   *)
+(*   added) and printed again; the last print must denote the function as  *)
+(*   it is now.  Invariant HistSound.                                      *)
 (* Mode "exec": the same for integer code in  define i32 @main()  with a   *)
 (*   reference evaluator (two's complement wrap-around on byte sequences,  *)
 (*   widths 1/8/16/32/64): every state carries the value every instruction *)
@@ -39,7 +45,7 @@
 (***************************************************************************)
 EXTENDS Schema, Json, IOUtils, Bitwise
 
-CONSTANTS Mode,        \* "cover" | "mix" | "exec"
+CONSTANTS Mode,        \* "cover" | "mix" | "exec" | "hist"
           MaxSteps,    \* mix / exec: maximal number of appended instructions
           ExecWidths,  \* exec: integer widths used for fresh constants
           ExecExhaustive, \* exec: TRUE = all boundary constants (depth 1), FALSE = random picks
@@ -337,6 +343,10 @@ ConstForms == <<
   <<"i128-2p63", CBytes(I128, Z(7) \o <<128>> \o Z(8))>>,
   <<"i65-min", CBytes(TyInt(65), Z(8) \o <<1>>)>>, <<"i65-2p63", CBytes(TyInt(65), Z(7) \o <<128, 0>>)>>,
   <<"i65-max", CBytes(TyInt(65), FF(8) \o <<0>>)>>, <<"i96-2p64", CBytes(TyInt(96), Z(8) \o <<1>> \o Z(3))>>,
+  \* beyond 128 bits (no machine type holds them), widths that are no multiple of 8, negative values
+  <<"i129-2p128-1", CBytes(TyInt(129), FF(16) \o <<0>>)>>, <<"i129-min", CBytes(TyInt(129), Z(16) \o <<1>>)>>,
+  <<"i256-2p200", CBytes(TyInt(256), Z(25) \o <<1>> \o Z(6))>>, <<"i256-neg2p130", CBytes(TyInt(256), Z(16) \o <<252>> \o FF(15))>>,
+  <<"i256-pattern", CBytes(TyInt(256), FF(8) \o Z(8) \o FF(8) \o Z(7) \o <<64>>)>>,
   <<"float-one", [c |-> "fp", ty |-> F32, v |-> "1.0"]>>, <<"double-neg", [c |-> "fp", ty |-> F64, v |-> "-0.5"]>>,
   <<"double-big", [c |-> "fp", ty |-> F64, v |-> "1e300"]>>, <<"float-frac", [c |-> "fp", ty |-> F32, v |-> "0.15625"]>>,
   <<"double-inexact-decimal", [c |-> "fp", ty |-> F64, v |-> "0.1"]>>, <<"double-zero", [c |-> "fp", ty |-> F64, v |-> "0.0"]>>,
@@ -568,8 +578,9 @@ Boundary(w) ==
 VARIABLES stage,  \* "init" | "kind" | "case" (cover) | "run" (mix/exec)
           k,      \* cover: index of the chosen kind
           prog,   \* cover: the program of the chosen case; mix/exec: the program built so far (epilogue included)
-          env     \* mix/exec: results of the instructions so far: [ty, w, v, p] (v/p only meaningful in exec)
-vars == <<stage, k, prog, env>>
+          env,    \* mix/exec: results of the instructions so far: [ty, w, v, p] (v/p only meaningful in exec)
+          hist    \* hist: [base, init, steps]: the function as first constructed and the steps performed since
+vars == <<stage, k, prog, env, hist>>
 
 \* --- exec -----------------------------------------------------------------
 \* operand choice: an earlier result of width w or a constant
@@ -679,10 +690,115 @@ MixProg(insts, callees) ==
        Fn("f", TyVoid, [i \in 1..Len(MixParams) |-> [name |-> IF i % 2 = 0 THEN "" ELSE "p" \o ToString(i), ty |-> MixParams[i]]], FALSE,
           <<Blk("", insts, RetVoid)>>))
 
+\* --- hist -------------------------------------------------------------------
+(* Mode "hist": construct -> print -> edit -> print.  A module is not built once and printed once:
+   passes print it (debugging, a first emission), then rewrite it through the same public API --
+   replace an instruction in place by a new one (Block.Insts[i] = ir.NewShl(..) and its uses
+   redirected through Operands(), the peephole pattern), name or un-name a value (SetName), reorder, remove, insert or append instructions,
+   replace a terminator, add a block -- and print again.  Printing WRITES into the objects (local
+   IDs, cached types), so "the text denotes exactly what was constructed" is also a statement
+   about the second print: it must denote the function as it is NOW.
+     state    prog = the module as it is now (the abstract result of all steps),
+              hist = [base, init (the function as first constructed), steps]
+     Print    an observer: Module.String(), Func.LLString() or Func.AssignIDs()   (no abstract effect)
+     Edit     one of HistEdits(fn), each a call sequence of the public API; Apply gives the new
+              abstract function (positions of later instructions shift: references are re-mapped)
+   Every state reached by an edit is emitted; the harness builds `init` through the constructors,
+   performs the steps on the real objects (printing where the history prints) and judges the FINAL
+   print against the template rendering of `prog`, exactly like a program built in one go.
+   Exhaustive to MaxSteps edits (each preceded by a print), or -simulate. *)
+HX == RParam(1)
+HistBase(bn) ==
+  LET u(s) == IF bn = 1 THEN "" ELSE s         \* base 1: mostly unnamed values; base 2: mostly named
+      n(s) == IF bn = 1 THEN s ELSE ""
+      bin(kd, nm, a, b) == Simple(kd, "i32", <<1, 1>>, <<>>, nm, <<a, b>>)
+  IN Fn("f", I32, <<[name |-> "x", ty |-> I32], [name |-> u("y"), ty |-> I32]>>, FALSE,
+        <<Blk(u("entry"),
+              <<bin("add", u("a"), HX, RParam(2)),
+                bin("mul", "m", HX, RConst(CInt(I32, 3))),
+                Simple("store", "i32", <<1, 1>>, <<>>, "", <<HX, RConst(GI32)>>),
+                bin("sub", n("d"), RInst(1, 1), RInst(1, 2)),
+                bin("xor", u("e"), RInst(1, 4), HX)>>,
+              Br(2)),
+          Blk(u("tail"), <<bin("shl", u("s"), RInst(1, 5), RConst(CInt(I32, 1)))>>, RetVal(I32, RInst(2, 1)))>>)
+HistBases == {1, 2}
+Observers == {"String", "FuncLLString", "AssignIDs"}
+
+AllInsts(fn) == UNION {{<<b, i>> : i \in 1..Len(fn.blocks[b].insts)} : b \in 1..Len(fn.blocks)}
+RefsOf(I) == {I.ops[j].v : j \in 1..Len(I.ops)}
+UsedIn(fn, b, i) == \E bb \in 1..Len(fn.blocks) :
+                      \/ \E ii \in 1..Len(fn.blocks[bb].insts) : RInst(b, i) \in RefsOf(fn.blocks[bb].insts[ii])
+                      \/ RInst(b, i) \in RefsOf(fn.blocks[bb].term)
+\* re-map the instruction references of a function
+MapInst(I, F(_)) == [I EXCEPT !.ops = [j \in 1..Len(I.ops) |-> IF I.ops[j].v.r = "inst" THEN [I.ops[j] EXCEPT !.v = F(I.ops[j].v)] ELSE I.ops[j]]]
+MapFn(fn, F(_)) == [fn EXCEPT !.blocks = [b \in 1..Len(fn.blocks) |->
+                      [fn.blocks[b] EXCEPT !.insts = [i \in 1..Len(fn.blocks[b].insts) |-> MapInst(fn.blocks[b].insts[i], F)],
+                                           !.term = MapInst(fn.blocks[b].term, F)]]]
+SeqInsert(s, i, x) == SubSeq(s, 1, i - 1) \o <<x>> \o SubSeq(s, i, Len(s))
+SeqRemove(s, i) == SubSeq(s, 1, i - 1) \o SubSeq(s, i + 1, Len(s))
+
+HEdit(op, b, i, nm, inst) == [op |-> op, b |-> b, i |-> i, name |-> nm, inst |-> inst]
+NoInst == Unreachable
+HistEdits(fn) ==
+  LET vals == {p \in AllInsts(fn) : fn.blocks[p[1]].insts[p[2]].res # TyVoid}
+      voids == AllInsts(fn) \ vals
+      at(p) == fn.blocks[p[1]].insts[p[2]]
+      other(nm, s) == IF nm = "" THEN s ELSE ""
+      fresh(nm) == Simple("add", "i32", <<1, 1>>, <<>>, nm, <<HX, RConst(CInt(I32, 5))>>)
+  IN \* an instruction replaced in place by a new one of the same type (first operand kept), name kept or dropped
+     {HEdit("replace", p[1], p[2], "", Simple(kd, "i32", <<1, 1>>, <<>>, IF keep THEN at(p).name ELSE "", <<at(p).ops[1].v, RConst(CInt(I32, 1))>>))
+        : p \in {q \in vals : Len(at(q).ops) = 2 /\ at(q).ops[1].ty = I32 /\ at(q).res = I32}, kd \in {"shl", "or"}, keep \in BOOLEAN}
+     \* a void instruction replaced by a value-producing one (nothing uses it): the numbering shifts, the counts do not
+     \cup {HEdit("replace", p[1], p[2], "", Simple("load", "i32", <<1>>, <<>>, nm, <<RConst(GI32)>>)) : p \in voids, nm \in {"", "l"}}
+     \* a value named or un-named
+     \cup {HEdit("setname-inst", p[1], p[2], other(at(p).name, "n"), NoInst) : p \in vals}
+     \cup {HEdit("setname-param", 0, i, other(fn.params[i].name, "q"), NoInst) : i \in 1..Len(fn.params)}
+     \cup {HEdit("setname-block", b, 0, other(fn.blocks[b].name, "bb"), NoInst) : b \in 1..Len(fn.blocks)}
+     \* two neighbours exchanged (the second does not use the first)
+     \cup {HEdit("swap", p[1], p[2], "", NoInst) : p \in {q \in AllInsts(fn) : q[2] < Len(fn.blocks[q[1]].insts)
+                                                                   /\ RInst(q[1], q[2]) \notin RefsOf(fn.blocks[q[1]].insts[q[2] + 1])}}
+     \* an unused instruction removed
+     \cup {HEdit("remove", p[1], p[2], "", NoInst) : p \in {q \in AllInsts(fn) : ~UsedIn(fn, q[1], q[2])}}
+     \* a new instruction inserted before position i (i = length + 1: appended by Block.NewAdd)
+     \cup UNION {{HEdit("insert", b, i, "", fresh(nm)) : i \in 1..(Len(fn.blocks[b].insts) + 1), nm \in {"", "k"}} : b \in 1..Len(fn.blocks)}
+     \* the terminator of the last block replaced (Block.NewRet overwrites Term)
+     \cup {HEdit("setterm", Len(fn.blocks), 0, "", RetVal(I32, HX))}
+     \* a block added (unreachable, which is valid LLVM)
+     \cup {HEdit("newblock", 0, 0, nm, NoInst) : nm \in {"", "nb"}}
+
+Apply(fn, e) ==
+  CASE e.op = "replace" -> [fn EXCEPT !.blocks[e.b].insts[e.i] = e.inst]
+    [] e.op = "setname-inst"  -> [fn EXCEPT !.blocks[e.b].insts[e.i].name = e.name]
+    [] e.op = "setname-param" -> [fn EXCEPT !.params[e.i].name = e.name]
+    [] e.op = "setname-block" -> [fn EXCEPT !.blocks[e.b].name = e.name]
+    [] e.op = "swap" ->
+         LET F(r) == IF r.b = e.b /\ r.i = e.i THEN RInst(e.b, e.i + 1) ELSE IF r.b = e.b /\ r.i = e.i + 1 THEN RInst(e.b, e.i) ELSE r
+             g == MapFn(fn, F)
+         IN [g EXCEPT !.blocks[e.b].insts = [@ EXCEPT ![e.i] = g.blocks[e.b].insts[e.i + 1], ![e.i + 1] = g.blocks[e.b].insts[e.i]]]
+    [] e.op = "remove" ->
+         LET F(r) == IF r.b = e.b /\ r.i > e.i THEN RInst(e.b, r.i - 1) ELSE r
+             g == MapFn(fn, F)
+         IN [g EXCEPT !.blocks[e.b].insts = SeqRemove(@, e.i)]
+    [] e.op = "insert" ->
+         LET F(r) == IF r.b = e.b /\ r.i >= e.i THEN RInst(e.b, r.i + 1) ELSE r
+             g == MapFn(fn, F)
+         IN [g EXCEPT !.blocks[e.b].insts = SeqInsert(@, e.i, e.inst)]
+    [] e.op = "setterm" -> [fn EXCEPT !.blocks[e.b].term = e.inst]
+    [] e.op = "newblock" -> [fn EXCEPT !.blocks = Append(@, Blk(e.name, <<>>, Unreachable))]
+
+HTag(e) == IF e.op = "print" THEN "print:" \o e.name
+           ELSE e.op \o "(" \o ToString(e.b) \o "," \o ToString(e.i) \o "," \o e.name
+                \o (IF e.op \in {"replace", "insert"} THEN "," \o e.inst.kind \o "," \o e.inst.name ELSE "") \o ")"
+RECURSIVE HTags(_, _)
+HTags(steps, j) == IF j > Len(steps) THEN "" ELSE "/" \o HTag(steps[j]) \o HTags(steps, j + 1)
+HistProg(bn, fn, steps) == Prog("hist:base" \o ToString(bn) \o HTags(steps, 1), "hist", BaseDecls, fn)
+NEdits(steps) == Cardinality({j \in 1..Len(steps) : steps[j].op # "print"})
+
 \* --- Init / Next ------------------------------------------------------------
 AllModuleProgs == ModuleProgs \o SetToSeq({UnnamedProg(o) : o \in UOrders})
 NCover == Len(CoverKinds) + Len(ConstForms) + Len(AllModuleProgs)
-Init == /\ stage = "init" /\ k = 0 /\ env = <<>>
+NoHist == [base |-> 0, init |-> NoFn, steps |-> <<>>]
+Init == /\ stage = "init" /\ k = 0 /\ env = <<>> /\ hist = NoHist
         /\ prog = Prog("empty", Mode, <<>>, NoFn)
 
 CoverNext ==
@@ -693,6 +809,22 @@ CoverNext ==
      /\ prog' = ConstProg(k - Len(CoverKinds)) /\ stage' = "case" /\ UNCHANGED <<k, env>>
   \/ /\ stage = "kind" /\ k > Len(CoverKinds) + Len(ConstForms)
      /\ prog' = AllModuleProgs[k - Len(CoverKinds) - Len(ConstForms)] /\ stage' = "case" /\ UNCHANGED <<k, env>>
+HistNext ==
+  \/ /\ stage = "init" /\ \E bn \in HistBases :
+          /\ hist' = [base |-> bn, init |-> HistBase(bn), steps |-> <<>>]
+          /\ prog' = HistProg(bn, HistBase(bn), <<>>)
+       /\ stage' = "built" /\ UNCHANGED <<k, env>>
+  \* an edit is preceded by a print (the first one by every kind of observer); -simulate draws one of each
+  \/ /\ stage \in {"built", "run"} /\ NEdits(hist.steps) < MaxSteps
+     \* (Func.AssignIDs is the VALIDATING entry point: it reports IDs a previous numbering left behind as
+     \*  errors, so it is an observer of freshly constructed functions only)
+     /\ \E how \in (IF hist.steps = <<>> THEN (IF ExecExhaustive THEN Observers ELSE {RandomElement(Observers)})
+                    ELSE IF ExecExhaustive THEN {"String"} ELSE {RandomElement(Observers \ {"AssignIDs"})}) :
+        \E e \in (IF ExecExhaustive THEN HistEdits(prog.fn) ELSE {RandomElement(HistEdits(prog.fn))}) :
+          LET steps == hist.steps \o <<HEdit("print", 0, 0, how, NoInst), e>> IN
+          /\ hist' = [hist EXCEPT !.steps = steps]
+          /\ prog' = HistProg(hist.base, Apply(prog.fn, e), steps)
+     /\ stage' = "run" /\ UNCHANGED <<k, env>>
 
 BodyInsts == IF prog.fn.blocks = <<>> THEN <<>> ELSE SubSeq(prog.fn.blocks[1].insts, 1, Len(env))
 ExecNext ==
@@ -712,9 +844,10 @@ MixNext ==
                           \o (IF s.callee = TyVoid THEN <<>> ELSE <<DeclFunc("callee" \o ToString(Len(env) + 1), s.callee)>>))
   /\ stage' = "run" /\ UNCHANGED k
 
-Next == \/ Mode = "cover" /\ CoverNext
-        \/ Mode = "exec" /\ ExecNext
-        \/ Mode = "mix" /\ MixNext
+Next == \/ Mode = "cover" /\ CoverNext /\ UNCHANGED hist
+        \/ Mode = "exec" /\ ExecNext /\ UNCHANGED hist
+        \/ Mode = "mix" /\ MixNext /\ UNCHANGED hist
+        \/ Mode = "hist" /\ HistNext
 Spec == Init /\ [][Next]_vars
 
 ----------------------------------------------------------------------------
@@ -753,7 +886,15 @@ EvalLaws ==
                     /\ BLShr(BShl(x.v, 1, x.w), 1, x.w) = BAnd(x.v, [BOnes(x.w) EXCEPT ![NBytes(x.w)] = 127])
       /\ x.w < 64 => Trunc(ZExt(x.v, x.w, 64), x.w) = x.v /\ Trunc(SExt(x.v, x.w, 64), x.w) = x.v
 
+\* hist: every edit is one of the edits enabled in the function it is applied to, and the emitted function
+\* is the result of applying the edits in order to the function first constructed
+RECURSIVE Replay(_, _, _)
+Replay(fn, steps, j) == IF j > Len(steps) THEN fn
+                        ELSE Replay(IF steps[j].op = "print" THEN fn ELSE Apply(fn, steps[j]), steps, j + 1)
+HistSound == (Mode = "hist" /\ stage = "run") =>
+               /\ prog.fn = Replay(hist.init, hist.steps, 1)
+               /\ hist.steps[Len(hist.steps) - 1].op = "print"
 Emit == IsProgState =>
-  Serialize(ToJson(prog) \o "\n", "progs.ndjson",
+  Serialize(ToJson(IF Mode = "hist" THEN prog @@ [hist |-> hist] ELSE prog) \o "\n", "progs.ndjson",
             [format |-> "TXT", charset |-> "UTF-8", openOptions |-> <<"WRITE", "CREATE", "APPEND">>]).exitValue = 0
 =============================================================================
